@@ -1,6 +1,7 @@
 /-
   C15 — Taint writes are precise and never restart a node's grace period.
 -/
+import EscProofs.P.GenDelTaint
 import EscProofs.P.GenAddTaint
 import EscProofs.Lemmas.Run
 import EscProofs.Lemmas.Count
